@@ -255,6 +255,30 @@ def run_check(tier, seed):
             run.add_violation("oracle", {"stream": "partial_precedence_orders", "what": bad, "described": {"argv": argv, "stdin": inp.decode("utf-8", "replace")[:1500]}, "rc": rc,
                                          "stderr": err.decode("utf-8", "replace")[:400]}, True)
 
+    # ---------------- stream 3d: stdin documents that are well-formed up to a value nested far deeper than anything zerv emits:
+    # they must be refused with an error (a reader without a depth limit overflows the stack and aborts)
+    st = run.streams.setdefault("stdin_documents_nested_beyond_any_limit", {"cases": 0, "clean": 0})
+    seed_doc = run_procs([(["version", "--source=none", "--tag-version=1.2.3", '--custom={"a":"MARK"}', "--output-format=zerv"], None)])[0][1].decode("utf-8", "replace")
+    dj = []
+    if '"MARK"' in seed_doc:
+        for depth in (300, 600, 5000, 20000, 200000):
+            for opn, cls in (("[", "]"), ('{"k":', "}")):
+                doc = seed_doc.replace('"MARK"', opn * depth + "1" + cls * depth)
+                for argv in (["version", "--source=stdin"], ["flow", "--source=stdin"], ["version", "--source=stdin", "--output-format=zerv"]):
+                    dj.append((depth, argv, doc.encode()))
+        dres = run_procs([(a, d) for _, a, d in dj], timeout=120)
+        for (depth, argv, _), (rc, out, err) in zip(dj, dres):
+            st["cases"] += 1
+            run.evaluations += 1
+            bad = discipline(rc, out, err)
+            if bad:
+                run.add_violation("oracle", {"stream": "stdin_documents_nested_beyond_any_limit", "what": bad, "described": {"argv": argv, "stdin": f"an emitted document whose custom value is nested {depth} levels deep"},
+                                             "rc": rc, "stderr": err.decode("utf-8", "replace")[:300]}, True)
+            else:
+                st["clean"] += 1
+    else:
+        run.add_violation("tie", {"what": "could not obtain a seed document for the nested-stdin stream", "stdout": seed_doc[:300]}, False)
+
     # ---------------- stream 3a: timestamp patterns that look like strftime specifiers, with a timestamp available to format
     st = run.streams.setdefault("percent_timestamp_patterns", {"cases": 0, "exit0": 0})
     pj = []
